@@ -666,6 +666,26 @@ Proof.
   split; [vm_compute; reflexivity|]. vm_compute. discriminate.
 Qed.
 
+(* ================================================================ nesting *)
+
+Lemma generated_templates_nested : templates_nested exception_templates exception_codes exception_locators = true.
+Proof. vm_compute. reflexivity. Qed.
+
+Lemma exception_documents_well_nested t code loc msg :
+  In t exception_templates -> In code (opt_strs exception_codes) -> In loc (opt_strs exception_locators) ->
+  well_nested (tokenize (exception_doc t msg code loc)) = true.
+Proof.
+  intros Ht Hc Hl. unfold well_nested.
+  rewrite (exception_documents_same_skeleton t code loc Ht Hc Hl msg).
+  pose proof generated_templates_nested as H. unfold templates_nested in H.
+  pose proof (In_forallb _ _ _ H Ht) as H1. cbn beta in H1.
+  pose proof (In_forallb _ _ _ H1 Hc) as H2. cbn beta in H2.
+  exact (In_forallb _ _ _ H2 Hl).
+Qed.
+
+Example not_nested_example : well_nested (tokenize [60; 97; 62; 60; 98; 62; 60; 47; 97; 62]) = false.  (* <a><b></a> *)
+Proof. vm_compute. reflexivity. Qed.
+
 (* ================================================================ attribute insertion with escape_html *)
 
 Lemma escape_html_attr q P S :
